@@ -214,8 +214,8 @@ pub fn check() -> Check {
         property: "C10",
         level: "exploration",
         scenarios: vec![Box::new(Repartition)],
-        cases_quick: 6_000,
-        cases_thorough: 120_000,
+        cases_quick: 30_000,
+        cases_thorough: 600_000,
         rule: "runs: seeded cases (1-4 scripted input partitions x 0-8 batches x 0-32 rows with NULLs and duplicate keys, Pending/virtual delays between batches; round-robin or hash on 1-3 keys into 1-8 outputs; preserve_order over sorted inputs; batch_size 1-64; pool from ample to refusing most growth + noisy neighbour, forcing spilled batches; tiny spill-file rotation; SimDisk read chunking; some outputs dropped after k batches), each under one seeded scheduler policy. distinct = distinct poll-order traces; non-trivial = >= 2 tasks runnable at some decision or a fault/refusal fired",
         assumptions: vec![
             "a task poll is atomic (races inside synchronous sections are covered at L2 for the channels and the spill pool)",
